@@ -118,14 +118,14 @@ def mkRd (b : Bytes) : SrcKind → Rd
 
 /-- a script is benign when every byte of the stream is deliverable before any error, whatever room
     the reader offers: no error except on the last entry, every k ∈ {0,1} ∪ [2^20,∞), enough
-    productive entries, and no run of ≥ 100 empty reads -/
+    productive entries, and no run of ≥ maxConsecutiveEmptyReads (the regenerated constant) empty reads -/
 def benignAux : List Resp → Nat → Bool
   | [], _ => true
   | r :: rest, zeros =>
     let kOk := r.k ≤ 1 || r.k ≥ 1048576
     let errOk := r.err.isNone || rest.isEmpty
     let zeros' := if r.k = 0 then zeros + 1 else 0
-    kOk && errOk && zeros' < 100 && benignAux rest zeros'
+    kOk && errOk && zeros' < Facts.maxConsecutiveEmptyReads && benignAux rest zeros'
 
 def benign (s : Src) : Bool :=
   benignAux s.script 0 &&
@@ -140,7 +140,7 @@ def benign (s : Src) : Bool :=
     read then has room for what its entry offers, so all bytes arrive before or together with the
     error (the data+EOF shape of finding F1) -/
 def finalErrLive (s : Src) : Bool :=
-  s.script.length < 100 && s.stream.length ≤ Facts.defaultBufSize &&
+  s.script.length < Facts.maxConsecutiveEmptyReads && s.stream.length ≤ Facts.defaultBufSize &&
   s.script.dropLast.all (fun r => r.err.isNone) &&
   (match s.script.getLast? with | some r => r.err.isSome | none => false) &&
   (s.script.map (·.k)).sum ≥ s.stream.length
